@@ -300,6 +300,7 @@ func main() {
 		s.flush()
 		return
 	}
+	p2pexec.EmitSameBodyFacts(out.Op)
 	// exhaustive small scope: every shape with up to maxSeg segments of size 1..3 × every arrival pattern
 	maxSeg := gen.Scale(2, 3)
 	shapes := [][]int{{}}
